@@ -49,6 +49,7 @@ type NetOpts struct {
 	ByzIdx    []int
 	Outsiders int
 	Inst      uint64
+	SendErrs  bool // the transport of every correct node reports a failure for about every fifth send
 	IdScheme  int // 0: two-byte ids; 1: 20-byte ids sharing their first three bytes; 2: 24-byte ids sharing their first twenty bytes
 }
 
@@ -114,6 +115,9 @@ func NewNet(c *Ctx, o NetOpts, label string) *Net {
 			n = NewRealNode(w, idx, id, nil)
 		}
 		n.MonViol = func(prop, sig, what string) { c.Violation(prop, sig, what, net.replay()) }
+		if o.SendErrs {
+			n.SendErr = func() bool { return net.r.Intn(5) == 0 }
+		}
 		net.nodes[string(id)] = n
 		net.order = append(net.order, n)
 		if isMain {
